@@ -86,18 +86,26 @@ Theorem C07_count_is_count_occ :
 Proof. exact count_count_occ. Qed.
 Print Assumptions C07_count_is_count_occ.
 
-(* --- naming: _ir._add_name / the loop of Design._assign_names --- *)
-(* whenever the assertion holds, the returned name is new and the set stays duplicate-free *)
-Theorem C07_add_name_fresh : forall A n n' A',
-  NoDup A -> add_name A n = Some (n', A') -> ~ In n' A /\ A' = n' :: A /\ NoDup A'.
+(* --- naming: _ir._add_name / the loop of Design._assign_names (retry loop, after fix cb9d97a) --- *)
+(* for every set and every name: the loop terminates (fuel |set|+1 is never exhausted), the returned name is not
+   in the set and is what gets added *)
+Theorem C07_add_name_fresh : forall A n, exists n', add_name A n = Some (n', n' :: A) /\ ~ In n' A.
 Proof. exact add_name_fresh. Qed.
 Print Assumptions C07_add_name_fresh.
-Example C07_add_name_fresh_ex : add_name ["a"; "clk"] "a" = Some ("a$2", ["a$2"; "a"; "clk"]).
-Proof. vm_compute. reflexivity. Qed.
+Example C07_add_name_fresh_ex :
+  add_name ["a"; "clk"] "a" = Some ("a$2", ["a$2"; "a"; "clk"]) /\
+  add_name ["a$2"; "a"] "a" = Some ("a$3", ["a$3"; "a$2"; "a"]).
+Proof. vm_compute. split; reflexivity. Qed.
 
-(* all names assigned in one module are pairwise distinct and distinct from the reserved ones *)
-Theorem C07_assign_names_unique : forall ns A out fin,
-  NoDup A -> assign_names A ns = Some (out, fin) ->
+(* a free name is kept as it is *)
+Theorem C07_add_name_keeps : forall A n, ~ In n A -> add_name A n = Some (n, n :: A).
+Proof. exact add_name_keeps. Qed.
+Print Assumptions C07_add_name_keeps.
+
+(* for ALL reserved sets and ALL name lists (names containing `$` included): every name gets assigned, the
+   assigned names are pairwise distinct and distinct from the reserved ones *)
+Theorem C07_assign_names_unique : forall ns A, NoDup A ->
+  exists out fin, assign_names A ns = Some (out, fin) /\
   NoDup out /\ (forall x, In x out -> ~ In x A) /\ NoDup fin /\
   List.length out = List.length ns /\ (forall x, In x fin <-> In x out \/ In x A).
 Proof. exact assign_names_unique. Qed.
@@ -106,19 +114,9 @@ Example C07_assign_names_unique_ex :
   assign_names ["clk"] ["a"; "a"; "clk"; "a"] = Some (["a"; "a$2"; "clk$3"; "a$4"], ["a$4"; "clk$3"; "a$2"; "a"; "clk"]).
 Proof. vm_compute. reflexivity. Qed.
 
-(* S3: "signals sharing a name never break this" is false of the faithful model: a, a$2, a trips the assertion *)
-Theorem C07_assign_names_refuted : exists ns, assign_names [] ns = None.
-Proof. exists ["a"; "a$2"; "a"]. apply assign_names_refuted. Qed.
-Print Assumptions C07_assign_names_refuted.
-
-(* ... and it is the ONLY way: when no name the user wrote (signals, ports, submodules; reserved port names)
-   contains a `$`, the assertion never fails, for any number of clashes *)
-Theorem C07_assign_names_total : forall reserved ns,
-  (forall x, In x reserved -> no_dollar x = true) -> (forall n, In n ns -> no_dollar n = true) ->
-  exists out fin, assign_names reserved ns = Some (out, fin).
-Proof. intros reserved ns H1 H2. apply assign_names_total; [apply names_inv_user|]; assumption. Qed.
-Print Assumptions C07_assign_names_total.
-Example C07_assign_names_total_ex :
-  forallb no_dollar ["clk"; "a"; "a"; "sub"; "a"; "sub"] = true /\
-  assign_names ["clk"] ["a"; "a"; "sub"; "a"; "sub"] = Some (["a"; "a$2"; "sub"; "a$4"; "sub$5"], ["sub$5"; "a$4"; "sub"; "a$2"; "a"; "clk"]).
+(* the former S3 witness (a, a$2, a tripped an assertion): the retry loop now gives three distinct names; with a
+   reserved port o it is a, a$3, a *)
+Example C07_former_S3_witness :
+  assign_names [] ["a"; "a$2"; "a"] = Some (["a"; "a$2"; "a$3"], ["a$3"; "a$2"; "a"]) /\
+  assign_names ["o"] ["a"; "a$3"; "a"] = Some (["a"; "a$3"; "a$4"], ["a$4"; "a$3"; "a"; "o"]).
 Proof. vm_compute. split; reflexivity. Qed.
